@@ -113,7 +113,7 @@ fn instr_set(n: usize) -> Vec<PushInstruction> {
     (0..n).map(|i| PushInstruction::push_int(i as i64)).collect()
 }
 
-fn gene_gen_once(which: u8, p: R2, n: usize, env: &mut Env, alpha: Alphabet) -> Result<Option<usize>, String> {
+pub fn gene_gen_once(which: u8, p: R2, n: usize, env: &mut Env, alpha: Alphabet) -> Result<Option<usize>, String> {
     let mut rng = ChoiceRng::new(env, alpha);
     let instrs = instr_set(n);
     mcx::guarded(|| {
@@ -133,7 +133,7 @@ fn gene_gen_once(which: u8, p: R2, n: usize, env: &mut Env, alpha: Alphabet) -> 
     })
 }
 
-fn bits_once(which: u8, p: R2, l: usize, env: &mut Env, alpha: Alphabet) -> Result<Vec<bool>, String> {
+pub fn bits_once(which: u8, p: R2, l: usize, env: &mut Env, alpha: Alphabet) -> Result<Vec<bool>, String> {
     let mut rng = ChoiceRng::new(env, alpha);
     mcx::guarded(|| match which {
         0 => Bitstring::random(l, &mut rng).bits,
